@@ -35,6 +35,14 @@ operation): every history of at most ``depth`` calls - refused calls included
 lengths, a component that does not exist) - on one attached object; after the
 last call the masks equal the returned selection or, when the call was refused
 and returned none, what they were before the call.
+
+Family ``curves`` (one root = object kind, peak search range, mask origin, a block
+of curve-shape assignments): the attached object holds EVERY assignment of curve
+shapes - with a peak, rising, falling, flat, ..., a peak cut off by a bounded
+search range - to its 3 windows, its masks are those hvsrpy itself left after the
+peak search, all True, or pre-set; x {S, M}^3 window lists (every selection
+pattern) x STA/LTA and maximum-value calls; both masks on every azimuth equal the
+returned selection also where the curve of a kept window has no peak.
 """
 import itertools
 import math
@@ -257,27 +265,35 @@ def selection(recs, out):
     return kept
 
 
-def check_masks(ctx, root, fn, h, kind, kept, detail):
+def check_masks(ctx, root, fn, h, kind, kept, detail, pending=None):
+    """``pending`` (family curves): a list that receives the mask violations instead of ``ctx``; the family reports
+    them at the end of its root, when it can tell whether the curves without a peak explain them."""
     if h is None:
         return
     trads = [h] if kind.startswith("trad") else list(h.hvsrs)
     tag = "trad" if kind.startswith("trad") else "azi"
+    equal = True
     for ai, t in enumerate(trads):
         for short, name in (("window", "valid_window_boolean_mask"), ("peak", "valid_peak_boolean_mask")):
             m = np.asarray(getattr(t, name))
             ctx.count("mask_comparisons")
             if m.dtype != bool or m.shape != (len(kept),) or m.tolist() != kept:
-                ctx.violation(f"C13:{fn}:mask:{tag}:{short}-mask", root,
-                              detail=dict(detail, azimuth_index=ai, mask=name),
-                              expected=kept, observed=m.tolist(),
-                              explanation=f"{name} of the attached {tag} object (azimuth index {ai}) "
-                                          f"differs from the returned selection")
+                equal = False
+                v = dict(key=f"C13:{fn}:mask:{tag}:{short}-mask", root=root,
+                         detail=dict(detail, azimuth_index=ai, mask=name),
+                         expected=kept, observed=m.tolist(),
+                         explanation=f"{name} of the attached {tag} object (azimuth index {ai}) "
+                                     f"differs from the returned selection")
+                if pending is not None:
+                    pending.append((short, v))
+                else:
+                    ctx.violation(v.pop("key"), v.pop("root"), **v)
 
 
     # the masks of the azimuths are separate states: a later manual rejection on ONE azimuth (an in-place
     # edit, the way update_peaks_bounded and the frequency-domain rejection write their decisions) leaves the
-    # selection on every other azimuth as the call left it
-    if tag == "azi" and len(trads) > 1 and any(kept):
+    # selection on every other azimuth as the call left it (asked only where every mask equals the selection)
+    if equal and tag == "azi" and len(trads) > 1 and any(kept):
         i = kept.index(True)
         for name in ("valid_window_boolean_mask", "valid_peak_boolean_mask"):
             m0 = getattr(trads[0], name)
@@ -978,6 +994,162 @@ def hist_roots(tier):
 
 
 # ---------------------------------------------------------------------------
+# what the attached object HOLDS: curves with and without a peak, masks as hvsrpy itself left them
+#
+# "an HVSR object passed along" is any result object.  The objects of the families above hold curves that all have
+# a peak, and their masks are always renewed by the harness.  Here every assignment of curve shapes - single peak,
+# rising, falling, flat, maximum on the first sample, flat-topped peak, a peak that a bounded search range cuts off -
+# to the 3 windows of the object is attached (the second azimuth holds another assignment, so the curves without a
+# peak stand at different windows on the two azimuths), with the peaks searched over the full range or over a
+# bounded range (``update_peaks_bounded``), and with the masks (a) exactly as hvsrpy left them after the peak search
+# (a curve without a peak is marked there), (b) all True, (c) pre-set differently for windows and peaks.  The window
+# lists {S, M}^3 give every selection pattern of 3 windows.  Oracle: both masks on every azimuth == the returned
+# selection (``check_masks``); when a mask kind is, in every call of the root, True exactly at the kept windows
+# whose curve has a peak, its differences are keyed ``...:curve-without-peak``.
+
+CURVE_N = 3
+CURVE_DT = 0.01
+CURVE_SHAPES = {"quick": ["p3", "up", "flat", "p5"],
+                "thorough": ["p3", "up", "flat", "p5", "down", "edge_lo", "plateau"]}
+CURVE_SEARCH = {"full": (None, None), "below_5.5": (None, 5.5)}     # p5 (peak at 6 Hz) has no peak below 5.5 Hz
+CURVE_MASKS = ["as_left_by_hvsrpy", "all_true", "pre"]
+CURVE_KINDS = ["trad", "azi"]
+CURVE_LISTS = [list(t) for t in itertools.product(["S", "M"], repeat=CURVE_N)]
+CURVE_OPS = {
+    "quick": [dict(fn="sta_lta", sta=1, lta=4, limits=(0.2, 2.5)),
+              dict(fn="sta_lta", sta=1, lta=4, limits=(0.0, 50.0)),
+              dict(fn="maximum_value", normalized=True, threshold=0.3)],
+    "thorough": [dict(fn="sta_lta", sta=1, lta=4, limits=(0.2, 2.5)),
+                 dict(fn="sta_lta", sta=1, lta=4, limits=(0.0, 50.0)),
+                 dict(fn="sta_lta", sta=0.5, lta=2, limits=(0.5, 1.25)),
+                 dict(fn="maximum_value", normalized=True, threshold=0.3),
+                 dict(fn="maximum_value", normalized=False, threshold=3.0),
+                 dict(fn="maximum_value", normalized=False, threshold=100.0)],
+}
+
+
+def curve_second_azimuth(assign, alphabet):
+    """Assignment of the second azimuth: window order reversed, every shape replaced by the next of the alphabet."""
+    return [alphabet[(alphabet.index(s) + 1) % len(alphabet)] for s in reversed(assign)]
+
+
+def curve_object(kind, assign, alphabet, search, masks):
+    """New object; (object, [per azimuth: per window: curve has no peak in the search range])."""
+    def trad(shapes):
+        return HvsrTraditional(FREQ, A.curve_set(shapes, 7))
+    if kind == "trad":
+        h = trad(assign)
+        trads = [h]
+    else:
+        h = HvsrAzimuthal([trad(assign), trad(curve_second_azimuth(assign, alphabet))], [0.0, 90.0])
+        trads = list(h.hvsrs)
+    if CURVE_SEARCH[search] != (None, None):
+        h.update_peaks_bounded(search_range_in_hz=CURVE_SEARCH[search])
+    peakless = []
+    for t in trads:
+        left = (np.array(t.valid_window_boolean_mask, copy=True), np.array(t.valid_peak_boolean_mask, copy=True))
+        t.valid_peak_boolean_mask = np.ones(CURVE_N, dtype=bool)
+        peakless.append(np.isnan(np.asarray(t.peak_frequencies, dtype=float)).tolist())    # public reading
+        if masks == "as_left_by_hvsrpy":
+            t.valid_window_boolean_mask, t.valid_peak_boolean_mask = left
+        elif masks == "all_true":
+            t.valid_window_boolean_mask = np.ones(CURVE_N, dtype=bool)
+            t.valid_peak_boolean_mask = np.ones(CURVE_N, dtype=bool)
+        else:
+            t.valid_window_boolean_mask = np.array([i % 2 == 1 for i in range(CURVE_N)])
+            t.valid_peak_boolean_mask = np.array([i % 2 == 0 for i in range(CURVE_N)])
+    return h, peakless
+
+
+def curve_root(ctx, root, tier):
+    kind, search, masks, alphabet = root["hvsr"], root["search"], root["masks"], root["alphabet"]
+    pending = []                                # mask violations of this root
+    explained = {"window": True, "peak": True}  # is EVERY mask of this kind, in every call of the root, equal to
+    #                                             "selection AND the curve of the window has a peak"?
+    for assign in root["assignments"]:
+        for ws in CURVE_LISTS:
+            for op in CURVE_OPS[tier]:
+                h, peakless = curve_object(kind, assign, alphabet, search, masks)
+                start = [[np.asarray(t.valid_window_boolean_mask).tolist(), np.asarray(t.valid_peak_boolean_mask).tolist()]
+                         for t in ([h] if kind == "trad" else h.hvsrs)]
+                recs = make_records(ws, CURVE_DT, 1.0)
+                fn = op["fn"]
+                detail = dict(family="curves held by the attached object", fn=fn + "_window_rejection", call=op,
+                              windows=ws, dt=CURVE_DT, components=ALL, hvsr=kind, frequency=FREQ,
+                              curve_shapes_azimuth_0=assign,
+                              curve_shapes_azimuth_1=curve_second_azimuth(assign, alphabet) if kind == "azi" else None,
+                              curves="hvmc.alphabets.curve_set(shapes, 7)", search_range_in_hz=CURVE_SEARCH[search],
+                              masks_before_the_call=masks, mask_values_before_the_call=start,
+                              curve_without_peak=peakless,
+                              object="hvmc.checks.c13.curve_object(hvsr, shapes, alphabet, search, masks)",
+                              signals="hvmc.checks.c13.window_arrays(name, dt)[component]")
+                ctx.count("states")
+                ctx.count("curve_family_calls")
+                try:
+                    if fn == "sta_lta":
+                        out = sta_lta_window_rejection(recs, sta_seconds=op["sta"], lta_seconds=op["lta"],
+                                                       min_sta_lta_ratio=op["limits"][0],
+                                                       max_sta_lta_ratio=op["limits"][1], components=ALL, hvsr=h)
+                    else:
+                        out = maximum_value_window_rejection(recs, maximum_value_threshold=op["threshold"],
+                                                             normalized=op["normalized"], components=ALL, hvsr=h)
+                except Exception as e:      # noqa: BLE001
+                    ctx.count("transitions")
+                    ctx.violation(f"C13:{fn}:call:raises", root, detail=detail, observed=f"{type(e).__name__}: {e}",
+                                  explanation=f"{fn} rejection raised inside its domain")
+                    continue
+                ctx.count("transitions")
+                kept = selection(recs, out)
+                if kept is None:
+                    ctx.violation(f"C13:{fn}:returned-list:identity-order", root, detail=detail,
+                                  observed=repr(out)[:300],
+                                  explanation="the returned value is not a sub-list of the given windows")
+                    continue
+                ctx.outcome(f"c|{fn}|{bits(kept)}|" + "/".join(bits(p) for p in peakless))
+                for p, s in zip(peakless, start):
+                    if any(k and q for k, q in zip(kept, p)):
+                        ctx.count("kept_window_whose_curve_has_no_peak")
+                        ctx.nontrivial_case(f"c|{kind}|{search}|{masks}|{'.'.join(assign)}|{bits(kept)}")
+                        if any(k and q and not m for k, q, m in zip(kept, p, s[1])):
+                            ctx.count("kept_window_whose_curve_has_no_peak_and_peak_mask_was_false")
+                    if any(not k and q for k, q in zip(kept, p)):
+                        ctx.count("rejected_window_whose_curve_has_no_peak")
+                    if all(p):
+                        ctx.count("object_without_any_peak")
+                check_masks(ctx, root, fn, h, kind, kept, detail, pending=pending)
+                for t, p in zip(([h] if kind == "trad" else h.hvsrs), peakless):
+                    for short, name in (("window", "valid_window_boolean_mask"), ("peak", "valid_peak_boolean_mask")):
+                        if np.asarray(getattr(t, name)).tolist() != [k and not q for k, q in zip(kept, p)]:
+                            explained[short] = False
+                ctx.count("validated")
+    # ---- report.  A mask kind whose every value in this root is "kept and the curve has a peak" (and that differs
+    # from the selection somewhere) was cleared where the curve has no peak: key of its own.  Any other difference
+    # (masks not written, written on one azimuth only, ...) keeps the key of the main families.
+    for short, v in pending:
+        key = v.pop("key") + (":curve-without-peak" if explained[short] else "")
+        if explained[short]:
+            v["explanation"] += ("; in every call of this root this mask is True exactly at the kept windows whose "
+                                 "curve has a peak in the search range")
+        ctx.violation(key, v.pop("root"), **v)
+    if len(ctx.samples) < 6:
+        ctx.sample(dict(family="curves held by the attached object", root=dict(root, assignments=root["assignments"][:3]),
+                        lists=CURVE_LISTS, operations=CURVE_OPS[tier], search=CURVE_SEARCH))
+
+
+def curve_roots(tier):
+    alphabet = CURVE_SHAPES[tier]
+    assigns = [list(t) for t in itertools.product(alphabet, repeat=CURVE_N)]
+    out = []
+    for kind in CURVE_KINDS:
+        for search in CURVE_SEARCH:
+            for masks in CURVE_MASKS:
+                for g in _groups(assigns, 64 if tier == "quick" else 49):
+                    out.append(dict(fn="curves", hvsr=kind, search=search, masks=masks, alphabet=alphabet,
+                                    assignments=g))
+    return out
+
+
+# ---------------------------------------------------------------------------
 # maximum value
 
 def maxval_case(ctx, root, ws, case):
@@ -1093,6 +1265,7 @@ def roots(tier, seed):
     out += same_n_roots(tier)
     out += uneq_roots(tier)
     out += hist_roots(tier)
+    out += curve_roots(tier)
     return out
 
 
@@ -1105,6 +1278,9 @@ def run_root(root, ctx, tier):
         return
     if root["fn"] == "history":
         hist_root(ctx, root)
+        return
+    if root["fn"] == "curves":
+        curve_root(ctx, root, tier)
         return
     fn, k = root["fn"], root["k"]
     space = STA_SPACE if fn == "sta_lta" else MAX_SPACE
@@ -1134,7 +1310,9 @@ def finalize(ctx, tier):
             "uneq_list_independence_comparisons", "refused_calls_judged", "refused_mask_comparisons",
             "refused_with_earlier_rejections_on_the_object", "refused_after_a_call_that_returned",
             "refused_after_examining_windows", "refused_after_examining_a_window_that_fails",
-            "history_returned_calls_judged", "returned_after_a_refused_call"]
+            "history_returned_calls_judged", "returned_after_a_refused_call",
+            "kept_window_whose_curve_has_no_peak", "kept_window_whose_curve_has_no_peak_and_peak_mask_was_false",
+            "rejected_window_whose_curve_has_no_peak", "object_without_any_peak"]
     missing = [n for n in need if not c.get(n)]
     if c.get("outside_domain_call_not_refused"):
         ctx.notes["outside_domain_call_not_refused"] = c["outside_domain_call_not_refused"]
@@ -1189,7 +1367,16 @@ def describe(tier):
              "exist after existing ones, for both functions) is executed on a new object of 3 windows; the last "
              "call is judged: returned -> both masks on every azimuth equal the returned selection, refused (no "
              "selection) -> both masks on every azimuth are what they were before that call.  A history is "
-             "counted non-trivial when its last call is refused on an object that carries a rejection",
+             "counted non-trivial when its last call is refused on an object that carries a rejection.  Family "
+             "curves: for every object kind {traditional, azimuthal} x peak search range {full, below 5.5 Hz (set "
+             "with update_peaks_bounded)} x mask origin {as hvsrpy left them after the peak search, all True, "
+             "pre-set differently for windows and peaks} EVERY assignment of the listed curve shapes (with a peak, "
+             "rising, flat, peak above the bounded range; thorough also falling, maximum on the first sample, "
+             "flat-topped) to the 3 windows of the object (second azimuth: order reversed, next shape of the "
+             "alphabet) x every window list of {S, M}^3 x the listed STA/LTA / maximum-value calls is executed on a "
+             "new object; both masks on every azimuth must equal the returned selection; a mask kind that in EVERY "
+             "call of a root is True exactly at the kept windows whose curve has a peak is keyed curve-without-peak.  Such a case is counted non-trivial when "
+             "a kept window's curve has no peak",
         bounds=dict(plan=sizes, alphabet=ALPHA, reduced_alphabets=dict(R4=R4, R3=R3),
                     sta=STA_SPACE["sta"], lta=STA_SPACE["lta"], dt=STA_SPACE["dt"],
                     min_ratio=MINS, max_ratio=MAXS, factors=FACTORS, maximum_value_criteria=CRITS,
@@ -1197,6 +1384,11 @@ def describe(tier):
                     same_sample_count=dict(sets=SAME_N_SETS[tier], modes=SAME_N_MODES, windows=SAME_N_LIST,
                                            components=SAME_N_COMPS, limits=len(SAME_N_LIMITS),
                                            roots=len(same_n_roots(tier))),
+                    curves=dict(shapes=CURVE_SHAPES[tier], windows_per_object=CURVE_N, search_ranges=CURVE_SEARCH,
+                                mask_origins=CURVE_MASKS, hvsr=CURVE_KINDS, window_lists=CURVE_LISTS,
+                                operations=CURVE_OPS[tier], roots=len(curve_roots(tier)),
+                                calls=len(CURVE_KINDS) * len(CURVE_SEARCH) * len(CURVE_MASKS) * len(CURVE_LISTS)
+                                * len(CURVE_OPS[tier]) * len(CURVE_SHAPES[tier]) ** CURVE_N),
                     history=dict(components_and_depth=HIST_COMPS[tier], operations=HIST_OPS, lists=HIST_LISTS,
                                  hvsr=HIST_KINDS, windows_per_object=HIST_N,
                                  histories=len(HIST_KINDS) * sum(len(HIST_OPS) ** d for _, depth in HIST_COMPS[tier]
@@ -1217,6 +1409,10 @@ def describe(tier):
             "what they were before it (values; the array objects may be new); that a length exceeding a window IS "
             "refused is outside the quantifier and not demanded (such a call, if it returns, is judged like any "
             "returned call and counted outside_domain_call_not_refused); time step 0.01 s, 3 windows per object",
+            "curves family: whether a curve 'has no peak' is read from the object itself through its public "
+            "peak_frequencies (NaN) with all peaks accepted, before the masks under test are put in place; it only "
+            "feeds the non-vacuity counters and the curve-without-peak suffix of the key (decided per root), the oracle (masks == "
+            "selection) does not depend on it; 7 frequencies, 3 windows, amplitude factor 1, all three components",
             "same-sample-count family: amplitude factor 1, no HVSR object; roots share their worker process with "
             "other roots, so the very first call for a given (n, sta, lta) in a process may belong to another "
             "root - the oracle is absolute (reference per window), so this only changes WHICH time step would "
